@@ -603,23 +603,25 @@ class C07(PropBase):
         dist["by_kind"]["F"] = nF
         dist["frame_list_walker"] = nF
         # front-end (g): WHOLE x86 walks from a context frame through generated stacks whose functions carry an FPO record
-        # (with / without base pointer) or a frame-data record with the .raSearch program, with / without FUNC record
+        # (with / without base pointer) or a frame-data record (the .raSearch program or the standard ebp frame), with / without FUNC record
         # (parameter size), any recursion; frame layout [arguments for the callee][locals][saved registers][return address].
         # Variants: the image cut short somewhere, the outermost return address below 4096.
         RA_PROG = "$T0 .raSearch = $eip $T0 ^ = $esp $T0 4 + ="
+        EBP_PROG = "$T0 $ebp = $eip $T0 4 + ^ = $ebp $T0 ^ = $esp $T0 8 + ="     # the module docs' standard ebp frame
         nG = 700 if tier == "quick" else 7000
         for gi in range(nG):
             nf = rng.range(1, 4)
             funs = []
             for k in range(nf):
-                kind = rng.choice(["fpo0", "fpo1", "fd", "fd"])
+                kind = rng.choice(["fpo0", "fpo1", "fd", "fd", "fdebp"])
                 sv = rng.choice([8, 12]) if kind == "fpo1" else rng.choice([0, 4, 8, 12])
                 funs.append(dict(kind=kind, sv=sv, lo=rng.choice([0, 4, 8]), ps=rng.choice([None, 0, 4, 8]), base=0x1000 * (k + 1)))
             depth = rng.range(1, 6)
             acts = [rng.below(nf) for _d in range(depth)]
-            img = bytearray(words(ESP, 96))
+            img = bytearray(words(ESP, 128))
             esp, gcps = ESP, 0
             eip0 = MODBASE + funs[acts[0]]["base"] + 0x10
+            slots = []          # per activation: where the caller's ebp is read from (None = ebp is passed through)
             for j, fi in enumerate(acts):
                 fn = funs[fi]
                 F = fn["lo"] + fn["sv"] + gcps
@@ -628,22 +630,35 @@ class C07(PropBase):
                     ra = MODBASE + funs[acts[j + 1]]["base"] + (256 if rng.chance(1, 5) else 0x20 + 4 * j)
                 else:
                     ra = 100 if rng.chance(1, 6) else MODBASE + 0xF010
+                if fn["kind"] == "fdebp":
+                    # [args for the callee][locals][saved registers][saved ebp <- $ebp][return address]
+                    slots.append(("ebp", esp + F))
+                    off = esp + F + 4 - ESP
+                    img[off:off + 4] = ra.to_bytes(4, "little")
+                    esp, gcps = esp + F + 8, (fn["ps"] or 0)
+                    continue
                 off = esp + F - ESP
                 img[off:off + 4] = ra.to_bytes(4, "little")
-                if fn["kind"] == "fpo1":
-                    so = esp + gcps + fn["sv"] - 8 - ESP
-                    img[so:so + 4] = (0x80000200 + 16 * j).to_bytes(4, "little")
+                slots.append(("slot", esp + gcps + fn["sv"] - 8) if fn["kind"] == "fpo1" else None)
                 esp, gcps = esp + F + 4, (fn["ps"] or 0)
+            # the chain of ebp values, from the outermost frame inwards: E = the ebp register while activation j is the callee
+            E = 0x80000100
+            for j in range(depth - 1, -1, -1):
+                if slots[j] is None:
+                    continue                       # passed through: the callee's ebp is the caller's
+                so = slots[j][1] - ESP
+                img[so:so + 4] = E.to_bytes(4, "little")
+                E = slots[j][1] if slots[j][0] == "ebp" else 0x80000300 + 16 * j
             if rng.chance(1, 4):
                 img = img[:4 * rng.range(1, (esp - ESP) // 4 + 2)]
             recs = []
             for fn in funs:
-                if fn["kind"] == "fd":
-                    recs.append(W("4", fn["base"], 256, fn["ps"] or 0, fn["sv"], fn["lo"], "1", RA_PROG))
+                if fn["kind"] in ("fd", "fdebp"):
+                    recs.append(W("4", fn["base"], 256, fn["ps"] or 0, fn["sv"], fn["lo"], "1", RA_PROG if fn["kind"] == "fd" else EBP_PROG))
                 else:
                     recs.append(W("0", fn["base"], 256, fn["ps"] or 0, fn["sv"], fn["lo"], "0", "1" if fn["kind"] == "fpo1" else "0"))
             fl = ";".join("%d 256 %d" % (fn["base"], fn["ps"]) for fn in funs if fn["ps"] is not None) or "-"
-            cases.append("|".join(["G", "eip=%d,esp=%d,ebp=%d,ebx=3,esi=5,edi=6" % (eip0, ESP, 0x80000100), str(ESP), bytes(img).hex(), fl] + recs))
+            cases.append("|".join(["G", "eip=%d,esp=%d,ebp=%d,ebx=3,esi=5,edi=6" % (eip0, ESP, E), str(ESP), bytes(img).hex(), fl] + recs))
         dist["by_kind"]["G"] = nG
         dist["whole_walks"] = nG
         return cases, dist, True
